@@ -1119,6 +1119,10 @@ func (e *asEngine) quiescenceMonitor() string {
 		if st.State == 0 && !st.Zombie && ms.Paused {
 			add(fmt.Sprintf("STAYS-PAUSED: context %d (%s) is alive and its mailbox is still paused at quiescence", c.cid, c.path))
 		}
+		// C09 / C03: a zombie keeps consuming its mail — its mailbox is not left paused
+		if st.Zombie && ms.Paused {
+			add(fmt.Sprintf("ZOMBIE-PAUSED: context %d (%s) is a zombie and its mailbox is still paused at quiescence (%d user message(s) parked in it): a zombie keeps consuming its mail", c.cid, c.path, ms.UserLen))
+		}
 		// C06/C09: nobody half-stopped
 		if st.State == 1 && !st.Zombie {
 			add(fmt.Sprintf("HALF-STOPPED: context %d (%s) is still in state killing at quiescence (children %v)", c.cid, c.path, st.Children))
@@ -1220,6 +1224,7 @@ func (e *asEngine) Generate(c *Ctx) {
 	e.escalationMatrix(c)
 	e.stashScenarios(c)
 	e.killVsDirective(c)
+	e.zombieSibling(c)
 	e.eventStreamScenarios(c)
 	e.schedulerScenarios(c)
 	for i := 0; i < n; i++ {
@@ -1605,6 +1610,45 @@ func (e *asEngine) killVsDirective(c *Ctx) {
 						c.R.Hit("killvs:dec" + dec + ":" + order)
 					}
 				}
+			}
+		}
+	}
+}
+
+// zombieSibling: a one-for-all supervisor whose first restart turns one child into a zombie (its restart hook fails);
+// a sibling fails again and the next decision — every one of them — reaches the zombie as well: it must go on
+// consuming its mail (C09, C03: never paused for good), run no user code, and go with its parent.
+func (e *asEngine) zombieSibling(c *Ctx) {
+	reps := 1
+	if c.Thorough() {
+		reps = 5
+	}
+	for rep := 0; rep < reps; rep++ {
+		for _, dec := range []string{"1", "2", "3", "4", "5", "6"} {
+			for _, hooks := range []int{2, 4} {
+				c.Case("reset 1")
+				c.Do(fmt.Sprintf("script 1 launch:spawn.a.2.0.-.%d,spawn.b.2.0.-.0,spawn.c.2.0.-.0;u1:tell.parent.1", hooks))
+				c.Do("script 2 u2:panic;u1:tell.parent.1")
+				c.Do(fmt.Sprintf("spawn p 1 2 1%s 0", dec)) // one-for-all: first decision Restart, second `dec`
+				e.drain(c, 100)
+				c.Do("tell p:/p/a 2") // a fails: everybody is restarted, a's hook fails: zombie
+				e.drain(c, 300)
+				c.Do("tell p:/p/a 1")
+				c.Do("tell p:/p/b 2") // b fails: the second decision reaches the zombie too
+				c.Do("tell p:/p/a 1")
+				e.drain(c, 300)
+				for _, p := range []string{"/p/a", "/p/a", "/p/b", "/p/c", "/p"} {
+					c.Do("tell p:" + p + " 1")
+				}
+				e.drain(c, 300)
+				c.Do("check")
+				if rep%2 == 1 {
+					c.Do("kill p:/p 0") // the zombie goes with its parent
+					e.drain(c, 300)
+					c.Do("check")
+				}
+				c.R.Nontrivial()
+				c.R.Hit("zombie-sibling:dec" + dec)
 			}
 		}
 	}
